@@ -19,7 +19,7 @@ CFG = {
             "their own (1/8 of the placements) or anywhere on the screen (1/24), every Resize reports the pixel size of the real resizeImage result and the "
             "real cellPixelSize. Round 3: kitty draws into tight windows (0..5 x 0..3 cells; about 1 in 11 draws is refused as too large), 400 rescaled block images of "
             "kinds half/full (image.NRGBA source) and halfp/fullp (image.RGBA source), half of them translucent, up to 9x12 px into boxes down to 1x1, compared cell by cell with the scaler model; unscaled "
-            "premultiplied 1x2 images at every alpha level. Round 4: 1000 (thorough 10000) block images with real *image.Gray, *image.Paletted (color.NRGBA palette, half of them with translucent entries) and *image.YCbCr (4:4:4 and 4:2:0, incl. values that clamp) "
+            "premultiplied 1x2 images at every alpha level. Round 4: 1500 (thorough 15000) block images with real *image.Gray, *image.Paletted (color.NRGBA palette, half of them with translucent entries), *image.YCbCr (all four subsampling ratios, incl. values that clamp) and opaque *image.NRGBA64 "
             "sources, 2/3 rescaled; every rendered frame reports ALL graphics commands in the order written (Q=: delete / place / complete PNG transmission with its pixel size / sixel). A case = one #case block; distinct by its op list; "
             "non-trivial = not a bare state snapshot",
     "technique": "Lean 4 proof over executable models of image.go / vaxis.go render / window.go Clear whose arm structure, guards, loops and statement order are regenerated from the source and INTERPRETED "
@@ -37,12 +37,12 @@ CFG = {
         "draw.NearestNeighbor.Scale is modelled (Model/Scaler.lean: index formula, the NRGBA/RGBA fast paths, the generic path scale_RGBA_Image_* and the Gray fast path of golang.org/x/image v0.9.0 draw/impl.go, hand-transcribed from the "
         "module cache - not regenerated by the extractor) and tied by the block streams (every rescaled image compared cell by cell); other source types are covered through the hypothesis SameAs (seen through At().RGBA() the source is pixel for pixel an "
         "NRGBA image: proved for *image.Gray, checked at run time for *image.Gray and *image.Paletted) or through the any-source model Scaler.resizeImgG (what At().RGBA() returns per pixel; proved to contain the fast-path model; *image.YCbCr via the "
-        "transcribed color.YCbCr.RGBA() = Spec.ycbcrRGBA and the inlined conversion of the YCbCr fast paths, 4:4:4 and 4:2:0 checked at run time); 16-bit types and the other subsampling ratios are not exercised; the Copy shortcut "
+        "transcribed color.YCbCr.RGBA() = Spec.ycbcrRGBA and the inlined conversion of the YCbCr fast paths, all four subsampling ratios and opaque *image.NRGBA64 checked at run time); translucent 16-bit types are not exercised; the Copy shortcut "
         "for equal sizes (proved unreachable from resizeImage under Sound), the PNG / base64 / sixel encoders and octreequant are not modelled",
         "Go's image/color conversions NRGBA.RGBA() / RGBA.RGBA() / Gray.RGBA() are transcribed in Spec.Images (nrgbaRGBA, rgbaRGBA, grayRGBA) and "
         "validated by the nrgba / rgba / half / full streams; since the F320 repair the block renderers do not call At() outside the bounds (the former assumption 'outside = zero colour' is gone)",
         "the terminal's side of the kitty graphics protocol (Model/KittyTerm.lean Term.apply: data table by image id, placement table by (image id, col, row); a=p replaces, a=d,d=i removes the addressed placement) is written from the protocol "
-        "document; it is lenient about retransmission (kitty drops the placements of a retransmitted image: Term.applyDrop, witness retransmission_drops_kept_placements); in the correspondence run image data is identified by the pixel size of the transmitted PNG",
+        "document; it is lenient about retransmission (kitty drops the placements of a retransmitted image: Term.applyDrop, witness retransmission_drops_kept_placements; strict_terminal_table_is_last_frame proves the refinement for the strict terminal under StrictFrames); in the correspondence run image data is identified by the pixel size of the transmitted PNG",
         "C11's window model (Model/Window.lean, Props.C11.drawops_clip) for the clipping of the Draw methods",
         "Gen/ImageFlow.lean pins as text only the format strings of the four kitty commands (data the harness's parser depends on); "
         "cellPixelSize, the cell arithmetic of both Resize methods, the Draw gates, the lower-pixel reads of both block Resize methods, the statement skeleton AND ORDER of render's placement stretch, the kitty upload bodies (Resize goroutine, writeTo closure), "
@@ -64,7 +64,7 @@ CFG = {
                   "fit_no_upscale_aspect_std: fit, no upscale and aspect for every image and box below 2^26 per dimension WITHOUT the hypothesis Sound, from the standard model of floating-point arithmetic by exact integer reasoning (sound_in_range). "
                   "Round 4: the kitty upload bodies and the block Draw loops are interpreted from regenerated statement forms (kitty_resize_body_eq_model, kitty_write_body_eq_model - semantic, block_draw_body_eq_model for every image); render's placement stretch is interpreted "
                   "in SOURCE ORDER (render_order_shape) and refined to an order-sensitive terminal: terminal_table_is_last_frame / terminal_shows_what_was_drawn - for ALL histories of Resize/Draw/Clear/Render/Refresh whose frames hold no image twice at one origin in two sizes, "
-                  "the terminal's placement table (commands applied in emission order) is exactly the table of the last frame; order_matters (the loops swapped: false); placement_id_injective over the regenerated id expression; data_is_latest / written_with_latest_data - all histories, "
+                  "the terminal's placement table (commands applied in emission order) is exactly the table of the last frame; order_matters (the loops swapped: false); strict_terminal_table_is_last_frame (the same on a terminal that drops the placements of a retransmitted image, when no placement is kept while its image has new data waiting); placement_id_injective over the regenerated id expression; data_is_latest / written_with_latest_data - all histories, "
                   "no hypothesis: a written placement finds the data of the image's last successful Resize on the terminal (re-upload after a second Resize); half_pipeline_translucent / full_pipeline_translucent - ONE statement per renderer for the colours of every cell of every "
                   "stored NRGBA image, scaled or not, translucent included (decision by the source alphas against 50 AND colours standing for the source pixels under the cell within 255/a + 1 levels); generic_path_eq_fast_path (sources of other types under the stated hypothesis SameAs, "
                   "gray_same_as_nrgba proved); half_pipeline_any_source / full_pipeline_any_source / half_pipeline_any_opaque_source - the renderers on a source of ANY concrete type given by its At().RGBA() (JPEG -> *image.YCbCr, Gray, Paletted, 16-bit; scaled or not): the property's table / mean on the "
@@ -75,7 +75,7 @@ CFG = {
                   "aspect, cell geometry, CellSize = ceil(px/cell) exactly, negative box => empty, glyph table and colours, mustWrite / mustDelete, kitty "
                   "placement inside its window (F120), rescaled opaque images show colours of source pixels under each cell (independent of the index formula), last odd row of a full-block image "
                   "in its own colour (F220); round 4: the order-sensitive terminal model run on the implementation's ORDERED command sequence - every a=p finds the data of the image's last Resize, after every frame the terminal's table = the (image, origin) pairs the application drew "
-                  "(not judged from a frame with a key clash on: keyfun_needed); the hypothesis SameAs for *image.Gray / *image.Paletted sources and the transcribed YCbCr conversion / subsampling (1000 images per quick run through the real scaler and renderers). That the scaler model is x/image's code (hand-transcribed, tied by about 1 600 rescaled images per quick run). Modelled, not verified: the strict terminal Term.applyDrop (only a witness), 16-bit source types and 4:2:2 / 4:4:0 YCbCr (inside the any-source theorems, not exercised), "
+                  "(not judged from a frame with a key clash on: keyfun_needed); the hypothesis SameAs for *image.Gray / *image.Paletted sources and the transcribed YCbCr conversion / subsampling (1000 images per quick run through the real scaler and renderers). That the scaler model is x/image's code (hand-transcribed, tied by about 1 600 rescaled images per quick run). Modelled, not verified: translucent 16-bit source types (inside the any-source theorems, not exercised), which of the two terminal models a given terminal implements (the oracle runs the lenient one), "
                   "nothing about the content of the PNG / sixel data beyond the PNG's pixel size.",
     "assumptions": ["image dimensions >= 1 (empty images are out of scope); box dimensions are any Int (round 2)",
                     "col,row of a placement within 0..65535 (the kitty placement id packs col<<16|row)",
